@@ -133,21 +133,24 @@ def same_reply(got, expect):
 
 
 class OneShotPeer(Peer):
-    def __init__(self, data):
+    def __init__(self, data, close=False):
         self.data = data
+        self.close = close
 
     def on_connect(self, conn):
         conn.send(self.data)
+        if self.close:
+            conn.close_after_send()
 
 
-def read_replies(data, cuts, nreplies):
+def read_replies(data, cuts, nreplies, close=False):
     """Feed ``data`` with the given cuts to a real ControlStream; read nreplies replies."""
     from wpull.network.connection import Connection
     from wpull.protocol.ftp.stream import ControlStream
     from wpull.errors import NetworkError, ProtocolError
     loop = VLoop().install()
     env = Env(loop)
-    net = Net(loop, env, OneShotPeer(data)).install()
+    net = Net(loop, env, OneShotPeer(data, close)).install()
     out = []
     try:
         conn = Connection(('10.0.0.1', 21))
@@ -187,6 +190,9 @@ def read_replies(data, cuts, nreplies):
                         break
                 c.deliver(k)
                 fed += k
+                continue
+            if c is not None and c.want_eof and not c.eof_sent:
+                c.deliver_eof()
                 continue
             out.append(('hang', None))
             break
@@ -327,6 +333,35 @@ def run_job(job):
                         violation='reply %r read as %r with cuts %s, expected %r' % (
                             job['name'], got, cuts[:8], expect), signature=sig, kind='reply',
                         name=job['name'], cuts=cuts))
+        # the control connection closes after t bytes: only replies whose final line arrived
+        # completely may be returned; everything after that is a network error
+        for t in range(0, n):
+            part = data[:t]
+            want = []
+            pos = 0
+            for _ in range(nrep):
+                code, text, used = ref_reply(part[pos:])
+                if code is None:
+                    want.append(('error', 'NetworkError'))
+                    break
+                want.append((code, text))
+                pos += used
+            for cuts in ([], list(range(1, t))):
+                got = read_replies(part, cuts, nrep, close=True)
+                res['evaluations'] += 1
+                res['transitions'] += len(cuts) + 1
+                res['states'].add(h64((job['name'], 'trunc', t, len(cuts))))
+                bad = len(got) != len(want) or any(
+                    (g[0] != w[0]) for g, w in zip(got, want))
+                if bad:
+                    sig = 'C17:reply-truncated:%s' % job['name']
+                    if sig not in seen:
+                        seen.add(sig)
+                        res['violations'].append(dict(
+                            violation='control stream of reply %r closed after %d bytes: '
+                                      'read as %r, expected %r' % (job['name'], t, got, want),
+                            signature=sig, kind='reply-trunc', name=job['name'], t=t,
+                            cuts=cuts))
         res['distinct'].add(h64(('reply', job['name'])))
         res['samples'].append(dict(kind='reply', name=job['name'], bytes=n, mode=mode,
                                    plans=len(plans)))
@@ -356,6 +391,21 @@ def replay(rec):
         v = judge_commands(rec['url'], obs, rec['mode'])
         return (rec['violation'] if v else None), (rec['signature'] if v else None), \
             obs['writes']
+    if rec['kind'] == 'reply-trunc':
+        data = REPLIES[rec['name']].encode('latin-1')[:rec['t']]
+        nrep = 2 if rec['name'] in ('two', 'digits3') else 1
+        got = read_replies(data, rec['cuts'], nrep, close=True)
+        want, pos = [], 0
+        for _ in range(nrep):
+            code, text, used = ref_reply(data[pos:])
+            if code is None:
+                want.append(('error', 'NetworkError'))
+                break
+            want.append((code, text))
+            pos += used
+        bad = len(got) != len(want) or any(g[0] != w[0] for g, w in zip(got, want))
+        return (rec['violation'] if bad else None), (rec['signature'] if bad else None), \
+            repr(got)
     if rec['kind'] == 'reply':
         data = REPLIES[rec['name']].encode('latin-1')
         nrep = 2 if rec['name'] in ('two', 'digits3') else 1
